@@ -500,6 +500,67 @@ func c17Scenarios(tier string) []*world.Scenario {
 		sc2.Check = sc.Check
 		out = append(out, sc2)
 	}
+	out = append(out, c17BehindPending(tier)...)
+	return out
+}
+
+// c17BehindPending: a rejected request pipelined BEHIND a forwarded request that is still pending (its error reply is
+// queued, not written at once) and in front of further requests; afterwards three more requests reuse the recycled
+// request objects and are completed by short replies. "The following requests on the connection are unaffected."
+func c17BehindPending(tier string) []*world.Scenario {
+	big := strings.Repeat("x", 80)
+	rej := []struct {
+		name string
+		args []string
+		exp  string
+	}{
+		{"unknown", []string{"flushall"}, world.RErrUnknownCmd},
+		{"unknown-with-args", []string{"keys", "*"}, world.RErrUnknownCmd},
+		{"arity-get", []string{"get", "a", "b"}, world.RErrArgs},
+		{"arity-eval", []string{"eval", "return 1", "0"}, world.RErrArgs},
+		{"arity-mset", []string{"mset", "a", "1", "b"}, world.RErrArgs},
+		{"oversize-set", []string{"set", "a", big}, world.RErrReqLarge},
+		{"oversize-mget", []string{"mget", "a", big}, world.RErrReqLarge},
+	}
+	b := 1
+	if tier == "thorough" {
+		b = 3
+	}
+	var out []*world.Scenario
+	for _, rj := range rej {
+		for _, head := range []string{"get", "mget"} {
+			var h Req
+			if head == "get" {
+				h = GetReq(keysA[0])
+			} else {
+				h = MGetReq(keysA[0], keysB[0])
+			}
+			r := Req{Kind: "REJ", Bytes: world.Cmd(rj.args...), Expect: []byte(rj.exp), Local: true}
+			reqs := []Req{h, r, GetReq(keysB[1]), GetReq(keysC[1]), GetReq(keysA[2]), GetReq(keysB[2])}
+			cs := ClientOf(reqs, false)
+			var first []byte
+			for _, q := range reqs[:3] {
+				first = append(first, q.Bytes...)
+			}
+			cs.Chunks = []world.Chunk{{Data: first}, {Data: reqs[3].Bytes, WaitReplies: 3}, {Data: reqs[4].Bytes, WaitReplies: 3}, {Data: reqs[5].Bytes, WaitReplies: 3}}
+			sc := &world.Scenario{Nodes: T3m(), Bound: b, Family: "rejected-behind-pending", Horizon: 300, MaxLen: 64, ReadCap: 256, WriteCap: 256,
+				Clients: []world.ClientSpec{cs}, Name: fmt.Sprintf("C17/behind-pending/%s/head=%s/d%d", rj.name, head, b)}
+			rejName := strings.ToLower(rj.args[0])
+			sc.Check = func(w *world.World) []world.Violation {
+				vs := CheckStreams(w, StreamOpts{})
+				for i := range vs {
+					vs[i].Sig = "wrong-reply-or-neighbour-affected"
+				}
+				for _, rec := range w.DataCmds("") {
+					if world.Lower(rec.Args[0]) == rejName && (len(rec.Args) < 2 || string(rec.Args[1]) == "a" || string(rec.Args[1]) == "*" || string(rec.Args[1]) == "return 1") {
+						vs = append(vs, world.Violation{Sig: "unsupported-forwarded:" + rejName, Msg: fmt.Sprintf("the rejected request reached %s: %q", rec.Addr, rec.Raw)})
+					}
+				}
+				return vs
+			}
+			out = append(out, sc)
+		}
+	}
 	return out
 }
 
@@ -545,7 +606,7 @@ func c17Tables(res *Result) {
 
 func init() {
 	register(&Check{ID: "C17", Level: "model_checking",
-		Rule:      "every command name of docs/command.md (supported and unsupported rows, ~230) + AUTH + 20 invented names x {lower, UPPER, every single-letter case flip (quick: first two)} x argument counts 0..5 (thorough 0..7) x position {alone, middle of a 3-request pipeline whose other members are valid GETs; thorough also first, last}, as closed-loop batches; QUIT and AUTH (with a configured password) separately; request sizes L-1, L, L+1, L+40 for a limit L=64 alone / split in three chunks / next to a small request, requests of exactly L, L+1 and 3L bytes for every command family (single-key read and write, split MGET/DEL/MSET, single-slot MGET, EVAL, EVALSHA), four small requests in one chunk whose total exceeds L; single-key and merged-MGET replies of size L-1, L, L+1; docs <-> hand-written spec <-> code tables compared in both directions; oracle: served iff (name in the documented set, case-insensitively) and (arity rule) and (own size <= L), otherwise exactly the corresponding error and NO backend receives anything for it, neighbours unaffected; distinct = observable outcomes",
+		Rule:      "every command name of docs/command.md (supported and unsupported rows, ~230) + AUTH + 20 invented names x {lower, UPPER, every single-letter case flip (quick: first two)} x argument counts 0..5 (thorough 0..7) x position {alone, middle of a 3-request pipeline whose other members are valid GETs; thorough also first, last}, as closed-loop batches; QUIT and AUTH (with a configured password) separately; request sizes L-1, L, L+1, L+40 for a limit L=64 alone / split in three chunks / next to a small request, requests of exactly L, L+1 and 3L bytes for every command family (single-key read and write, split MGET/DEL/MSET, single-slot MGET, EVAL, EVALSHA), four small requests in one chunk whose total exceeds L; single-key and merged-MGET replies of size L-1, L, L+1; docs <-> hand-written spec <-> code tables compared in both directions; oracle: served iff (name in the documented set, case-insensitively) and (arity rule) and (own size <= L), otherwise exactly the corresponding error and NO backend receives anything for it, neighbours unaffected; distinct = observable outcomes; plus every rejection class (unknown name, arity of the default/EVAL/MSET branch, oversize of the default/MGET branch) pipelined BEHIND a pending forwarded request and in front of further ones, followed by three requests that reuse the recycled request objects, under every interleaving within the bound",
 		Scenarios: c17Scenarios, BudgetQuick: 100, BudgetThorough: 1500,
 		Seq: func(tier string, shard, n int, deadline time.Time, res *Result) {
 			if shard == 0 {
